@@ -181,10 +181,14 @@ func (rn *c03Runner) fresh(p byte) {
 
 // check one (method, operand, tracked widths) case. deep additionally runs the library's own decoders/CPUs.
 func (rn *c03Runner) check(name string, sp c03Spec, arg uint32, p byte, deep bool) (sig, what string) {
-	if rn.e == nil || rn.p != p&0x30 || rn.e.Len()+4 > rn.e.Cap() || name == "REP" || name == "SEP" || sp.label {
+	if rn.e == nil || rn.p != p&0x30 || rn.e.Len()+4 > rn.e.Cap() {
 		rn.fresh(p)
 	}
 	e := rn.e
+	if name == "REP" || name == "SEP" || sp.label {
+		// these calls change the tracked widths / leave a dangling reference: never reuse the emitter
+		defer func() { rn.e = nil }()
+	}
 	if rn.boundName != name {
 		b, err := c03Bind(e, name)
 		if err != nil {
